@@ -66,6 +66,7 @@ FragsMerge == { FM(("a" :> FM(("x" :> FP("1"))))),
                 FM(("l" :> FL(<<FM(("x" :> FP("1"))), FP("3")>>))),
                 FL(<<FP("7")>>),
                 \* dotted keys with compound values (the intermediate node may or may not exist in the destination)
+                FM(("a" :> FL(<<>>))),                      \* an EMPTY list (a dictionary may be merged over it later)
                 FDK("a", "x", FM(("zz" :> FP("1")))),
                 FDK("s", "t", FL(<<FP("1")>>)) }
 PolsAll    == {"default", "replace", "arrreplace", "append", "prepend"}
